@@ -94,6 +94,14 @@ def snapshot(repo: Path) -> dict:
     }
 
 
+def property_files(pid: str) -> list[str]:
+    """the library files property `pid` depends on (anchor files + package-internal imports), from anchors.json"""
+    f = VERIF / "anchors.json"
+    if not f.exists():
+        return []
+    return list(json.loads(f.read_text())["properties"].get(pid, []))
+
+
 def changed_files(pid: str, repo: Path) -> list[str]:
     """files property `pid` depends on whose syntax tree differs from the validated snapshot (or that are new / gone)"""
     f = VERIF / "anchors.json"
